@@ -2,15 +2,17 @@
 import plugincheck
 
 THEOREMS = ["filter_then_bind", "filter_then_bind_noranges", "filter_then_bind_owned_ranges", "filter_then_bind_partial",
-            "bind_routable_ranges", "bind_routable_partial", "bind_info_configured", "owned_restricts", "fresh_exact"]
-REFUTED = ["bind_routable_refuted", "bind_routable_witness_reachable", "bind_routable_refuted_ranges_old",
+            "bind_routable", "bind_routable_ranges", "bind_routable_partial", "first_of_key_smallest", "bind_info_configured",
+            "owned_restricts", "fresh_exact"]
+REFUTED = ["bind_routable_refuted_old", "first_of_key_old_two", "bind_routable_witness_reachable", "bind_routable_refuted_ranges_old",
            "filter_then_bind_refuted_restart_old", "filter_then_bind_witness_reachable_old", "filter_then_bind_overlap_refuted"]
 KNOWN_FINDINGS = [
-    {"id": "K7", "status": "open", "tag": plugincheck.K7_TAG,
-     "what": "a pod that requests no range but whose key holds SEVERAL IPs (its template changed from requested ranges to none "
-             "while the IPs were reserved): filter and bind each take 'the first' IP of the key in Go's map order, so filter can "
-             "approve nodes for one IP and bind write another one that is not routable from the chosen node; witness "
-             "bind_routable_refuted / bind_routable_witness_reachable, scenarios K7-plain-key-two-ips"},
+    {"id": "K7", "status": "fixed", "commit": "d08b5a9", "tag": "c06-plain-key-holds-several-ips",
+     "what": "fixed: property=C06 d08b5a9 a pod that requests no range but whose key holds SEVERAL IPs (its template changed from "
+             "requested ranges to none while the IPs were reserved): filter and bind each took 'the first' IP of the key in Go's map "
+             "order, so filter could approve nodes for one IP and bind write another one that is not routable from the chosen node "
+             "(witness bind_routable_refuted_old / first_of_key_old_two; scenarios K7-plain-key-two-ips); ByKeyAndIPRanges now "
+             "lists a key's IPs in ascending order"},
     {"id": "F14", "status": "fixed", "commit": "948e55d", "tag": "c06-range-intersection-restart",
      "what": "fixed: property=C06 948e55d NodeSubnetsByIPRanges restarted the intersection of the range lists' node subnets when it "
              "became empty: with three range lists in pools without a common node subnet filter approved a node on which bind "
@@ -26,13 +28,13 @@ MANIFEST = {
     "text": "Coq theorems over the scheduler-plugin model for EVERY world satisfying WInv, every topology the decoder accepts, "
             "every oracle: filter_then_bind (filter returned the node, nothing else changed, no injected fault, pairwise-disjoint "
             "requested ranges: bind succeeds, or the oracle was invalid, or it reports that an IP of the key is still stored for "
-            "another UID - the documented wait for the deletion event); bind_routable_ranges / bind_routable_partial (every IP "
-            "written by a bind on a filter-approved node lies in a pool that lists the node's subnet); bind_info_configured (the "
+            "another UID - the documented wait for the deletion event); bind_routable (every IP written by a bind on a "
+            "filter-approved node lies in a pool that lists the node's subnet - the statement as asked, no extra premise since the "
+            "repair of K7: 'the first' IP of a key is its smallest, first_of_key_smallest); bind_info_configured (the "
             "mask, gateway and VLAN written are those of a loaded pool containing the IP); owned_restricts (a pod holding an IP "
             "is offered exactly the nodes from which it is routable); fresh_exact (a fresh default-policy pod is offered exactly "
-            "the candidate nodes with a free routable IP). Two defects refuted these statements and were repaired (F14, F15: "
-            "witnesses for the old behaviour kept); one remains and is recorded (K7: bind_routable for a plain key holding "
-            "several IPs, refuted on a reachable world). Tied to the code by random-topology routing scenarios (bind on a node the "
+            "the candidate nodes with a free routable IP). Three defects refuted these statements and were repaired (F14, F15, K7: "
+            "witnesses for the old behaviour kept). Tied to the code by random-topology routing scenarios (bind on a node the "
             "real filter approved) on the real FloatingIPPlugin vs the model step by step - filter node sets, bind results and the "
             "IP/mask/gateway/VLAN written are compared - plus the predicates filter_then_bind / bind_routable / "
             "bind_info_configured on the implementation's outputs.",
